@@ -41,10 +41,13 @@ def run(chk, tier):
     # "scopes": every block of the body declares a block-scoped variable captured by a closure, and every logged number checks that all
     # enclosing blocks' variables are seen with their own values (suspension, resumption and return() / throw() into a finally block
     # must restore the lexical environment of the code that runs next)
-    for variant, label, counter in [("yform", "yield inside expressions", "yield_form_runs"), ("scopes", "captured block scopes", "block_scope_runs")]:
+    for variant, label, counter in [("yform", "yield inside expressions", "yield_form_runs"), ("scopes", "captured block scopes", "block_scope_runs"),
+                                    ("reenter", "re-entrant next() / return() from the methods of every iterator the body uses", "reentrant_runs")]:
         with phase(chk, "goja-" + variant):
-            got2 = oracle.goja_run(binp, progs, wd, variant[:2], variant=variant)
+            got2 = oracle.goja_run(binp, [p for p in progs if variant != "reenter" or p["gen"]], wd, variant[:2], variant=variant)
             for p in progs:
+                if p["id"] not in got2:
+                    continue
                 if not oracle.agree(p, want2[p["id"]], got2[p["id"]]):
                     g = got2[p["id"]]
                     chk.violation("MiniJS L2 (generators, %s): program %d: specified log=%s %s/%s; goja log=%s %s/%s %s" % (
